@@ -90,6 +90,7 @@ OPNMIDIplay::OPNMIDIplay(unsigned long sampleRate) :
     m_setup.ScaleModulators     = 0;
     m_setup.fullRangeBrightnessCC74 = false;
     m_setup.enableAutoArpeggio = false;
+    m_setup.loopHooksOnly = false;
     m_setup.delay = 0.0;
     m_setup.carry = 0.0;
     m_setup.tick_skip_samples_delay = 0;
@@ -158,15 +159,32 @@ void OPNMIDIplay::applySetup()
         m_midiChannels[c].extended_note_count = 0;
     }
     resetMIDIDefaults();
-#if defined(OPNMIDI_MIDI2VGM) && !defined(OPNMIDI_DISABLE_MIDI_SEQUENCER)
-    m_sequencerInterface->onloopStart = synth.m_loopStartHook;
-    m_sequencerInterface->onloopStart_userData = synth.m_loopStartHookData;
-    m_sequencerInterface->onloopEnd = synth.m_loopEndHook;
-    m_sequencerInterface->onloopEnd_userData = synth.m_loopEndHookData;
-    m_sequencer->setLoopHooksOnly(m_sequencerInterface->onloopStart != NULL);
-#endif
+    applyLoopHooks();
     // Reset the arpeggio counter
     m_arpeggioCounter = 0;
+}
+
+void OPNMIDIplay::applyLoopHooks()
+{
+#if defined(OPNMIDI_MIDI2VGM) && !defined(OPNMIDI_DISABLE_MIDI_SEQUENCER)
+    Synth &synth = *m_synth;
+    if(synth.m_loopStartHook) // The VGM dumper takes the loop points for itself
+    {
+        m_sequencerInterface->onloopStart = synth.m_loopStartHook;
+        m_sequencerInterface->onloopStart_userData = synth.m_loopStartHookData;
+        m_sequencerInterface->onloopEnd = synth.m_loopEndHook;
+        m_sequencerInterface->onloopEnd_userData = synth.m_loopEndHookData;
+        m_sequencer->setLoopHooksOnly(true);
+    }
+    else // Any other chip: keep what the user has installed
+    {
+        m_sequencerInterface->onloopStart = hooks.onLoopStart;
+        m_sequencerInterface->onloopStart_userData = hooks.onLoopStart_userData;
+        m_sequencerInterface->onloopEnd = hooks.onLoopEnd;
+        m_sequencerInterface->onloopEnd_userData = hooks.onLoopEnd_userData;
+        m_sequencer->setLoopHooksOnly(m_setup.loopHooksOnly);
+    }
+#endif
 }
 
 void OPNMIDIplay::partialReset()
@@ -186,13 +204,7 @@ void OPNMIDIplay::partialReset()
         m_midiChannels[c].extended_note_count = 0;
     }
     resetMIDIDefaults();
-#if defined(OPNMIDI_MIDI2VGM) && !defined(OPNMIDI_DISABLE_MIDI_SEQUENCER)
-    m_sequencerInterface->onloopStart = synth.m_loopStartHook;
-    m_sequencerInterface->onloopStart_userData = synth.m_loopStartHookData;
-    m_sequencerInterface->onloopEnd = synth.m_loopEndHook;
-    m_sequencerInterface->onloopEnd_userData = synth.m_loopEndHookData;
-    m_sequencer->setLoopHooksOnly(m_sequencerInterface->onloopStart != NULL);
-#endif
+    applyLoopHooks();
 }
 
 void OPNMIDIplay::resetMIDI()
